@@ -152,6 +152,43 @@ def gz_predicate(ctx, rule):
     ctx.ob(rule, SNK, "DiskSink.__enter__", enter, "writer and reader choose gzip by the same predicate on the path", ok, detail={"writer": wp, "reader": rp}, stmt="gz predicate")
 
 
+def _fold_mode_after_exit(fn, mode):
+    """value of self._mode after DiskSink.__exit__ closed the file, by constant folding of the statements that assign it (tests and values may only
+    use self._mode, literals, slicing, comparison, concatenation and pure str methods); None when something else is involved."""
+    class Sub(ast.NodeTransformer):
+        def visit_Attribute(self, node):
+            if is_self_attr(node, "_mode"):
+                return ast.copy_location(ast.Constant(value=cur[0]), node)
+            return self.generic_visit(node)
+
+    def fold(e):
+        e2 = Sub().visit(ast.parse(unparse(e), mode="eval").body)
+        for y in ast.walk(e2):
+            if isinstance(y, ast.Name) or (isinstance(y, ast.Call) and not (isinstance(y.func, ast.Attribute) and y.func.attr in ("startswith", "endswith", "replace", "lstrip", "rstrip", "strip"))):
+                raise ValueError(unparse(e))
+        return eval(compile(ast.fix_missing_locations(ast.Expression(e2)), "<fold>", "eval"), {"__builtins__": {}})
+    cur = [mode]
+
+    def run(body):
+        for st in body:
+            if isinstance(st, ast.If):
+                uses_mode = any(is_self_attr(y, "_mode") for y in ast.walk(st))
+                if not uses_mode:
+                    continue
+                if any(is_self_attr(y, "_mode") for y in ast.walk(st.test)):
+                    run(st.body if fold(st.test) else st.orelse)
+                else:
+                    run(st.body)   # e.g. `if self._count == 0 and self._file is not None:` -- the closing path
+                    continue
+            elif isinstance(st, ast.Assign) and any(is_self_attr(t, "_mode") for t in st.targets):
+                cur[0] = fold(st.value)
+    try:
+        run(fn.body)
+    except Exception:
+        return None
+    return cur[0]
+
+
 def r3_framing(ctx):
     ctx.rule("C12.R3", "DiskSink and DiskSource agree: same '.gz' predicate on the path, one LF appended per line, the reader strips the terminator")
     gz_predicate(ctx, "C12.R3")
@@ -169,6 +206,15 @@ def r3_framing(ctx):
                  and "'a'" in unparse(x.value)]
     ctx.ob("C12.R3", SNK, "DiskSink.write", reopen[0] if reopen else wr, "a sink opened with a truncating mode truncates once: after the first close the mode is downgraded to append "
            "(the file is re-opened for every batch)", (not reopen) or bool(downgrade), stmt="truncate once")
+    # constant folding of the downgrade for every truncating mode the constructor accepts ('w', 'w+'): the mode after the first close no longer truncates
+    # and keeps its other flags; appending modes are left alone
+    ex = snk.methods.get("__exit__")
+    if reopen and ex is not None:
+        for m0 in ("w", "w+", "a", "a+"):
+            after = _fold_mode_after_exit(ex, m0)
+            want = "a" + m0[1:]
+            ctx.ob("C12.R3", SNK, "DiskSink.__exit__", downgrade[0] if downgrade else ex, f"a sink constructed with mode {m0!r} re-opens with mode {want!r} after its first close "
+                   "(no second truncation, same read/write flags)", after == want, detail={"mode after first close": after}, stmt=f"mode {m0} after close")
     strips = [c for c in walk_shallow(rd) if isinstance(c, ast.Call) and call_tail(c) in ("rstrip", "strip")]
     RL = (bound_names(rd, lambda v: isinstance(v, ast.Call) and call_tail(v) == "readline") or ["line"])[0]
     ok = len(strips) == 1 and unparse(strips[0]) == f"{RL}.rstrip('\\r\\n')"
@@ -320,6 +366,7 @@ def r7_csv_dialect(ctx):
 
 
 CONTROLS = [
+    ("only the bare 'w' mode is downgraded", SNK, M.replace_stmt("DiskSink.__exit__", M.text_has("self._mode[:1] == 'w'"), "if self._mode == 'w': self._mode = 'a'"), "C12.R3"),
     ("csv rows stripped of all whitespace", RDR, M.replace_expr("CsvReader.filter", "i.strip('\\r\\n')", "i.strip()"), "C12.R7"),
     ("only LF completes a line", SRC, M.replace_expr("DelimSource.read", "text[-1].splitlines()[0]", "text[-1] != '\\n'"), "C12.R2"),
     ("batched sink truncates on every batch", SNK, M.delete_stmt("DiskSink.__exit__", M.text_has("if self._mode[:1] == 'w': self._mode = 'a' + self._mode[1:]")), "C12.R3"),
